@@ -19,3 +19,7 @@ def c13_d(R, ctx):
 
 def c14_a(R, ctx):
     pass
+
+
+def c18_c(R, ctx):
+    pass
